@@ -45,6 +45,14 @@ where
         let wl = T::from(window_len).expect("can convert");
         let m = offset * (wl + T::one());
         let s = wl / sigma;
+        // The Gaussian weight is smallest at one of the two ends of the window. If it underflows to zero there,
+        // a window can consist of zero weights only and the weighted mean becomes 0 / 0.
+        let weight =
+            |k: T| (-(k - m).powi(2) / (T::from(2.0).expect("can convert") * s * s)).exp();
+        assert!(
+            weight(T::zero()) > T::zero() && weight(wl - T::one()) > T::zero(),
+            "the kernel weight of every window position must be greater than zero"
+        );
         Alma {
             view,
             window_len,
